@@ -52,7 +52,36 @@ func GenPackage(r *Rand, name string, nfuncs int) (string, GenStats) {
 			g.genericFunc()
 		}
 	}
+	// always present: the "partially escaping local + side exit + join from an undominated predecessor" idiom
+	for v := 0; v < 3; v++ {
+		g.escFunc(v)
+	}
 	return g.sb.String(), g.st
+}
+
+// escFunc: a local declared in a non-entry block A has a liftable load, is LATER address-taken in a block U that
+// leaves through a side exit (goto / break outer) to a landing block J; J has another predecessor Q that is
+// reachable from A, not dominated by A and not reachable from U. The lifter splits the Alloc and must place
+// the propagating load/store only in predecessors that the Alloc's block dominates.
+func (g *gen) escFunc(variant int) {
+	g.st.GotoFuncs++
+	name := g.fresh("Esc")
+	k1, k2 := 2+g.r.Intn(9), 3+g.r.Intn(9)
+	extra := []string{"s += a", "s ^= 5", "s = s*3 + 1", "if a > 7 { s-- }"}[g.r.Intn(4)]
+	switch variant {
+	case 0: // goto out of the address-taking block; Q is entered from the entry block as well
+		g.p("func %s(a int, c bool) int {\n\tvar p *int\n\ts := 0\n\tif c { goto Q }\n", name)
+		g.p("\t{\n\t\tx := a + %d\n\t\ts += x\n\t\t%s\n\t\tif s > %d { goto Q }\n\t\tp = &x\n\t\ts += 2\n\t\tgoto J\n\t}\n", k1, extra, k2)
+		g.p("Q:\n\ts++\n\t%s\nJ:\n\tif p != nil { s += *p }\n\treturn s\n}\n\n", extra)
+	case 1: // two nested loops: the address-taking block always leaves both loops; the outer loop head also reaches J
+		g.p("func %s(a int, c bool) int {\n\tvar p *int\n\ts := 0\nouter:\n\tfor i := 0; i < a; i++ {\n\t\tfor j := 0; j < a; j++ {\n", name)
+		g.p("\t\t\tx := i + j + %d\n\t\t\ts += x\n\t\t\t%s\n\t\t\tif s > %d { continue }\n\t\t\tif c && s == %d { break }\n\t\t\tp = &x\n\t\t\tbreak outer\n\t\t}\n\t}\n", k1, extra, k2, k1)
+		g.p("\tif p != nil { s += *p }\n\treturn s\n}\n\n")
+	default: // irreducible region {L, M} entered at both nodes
+		g.p("func %s(a int, c bool) int {\n\tvar p *int\n\ts := 0\n\tif c { goto M }\n", name)
+		g.p("L:\n\t{\n\t\tx := a + %d\n\t\ts += x\n\t\t%s\n\t\tif s > %d { goto M }\n\t\tp = &x\n\t\tgoto J\n\t}\n", k1, extra, k2)
+		g.p("M:\n\ts++\n\tif s < %d { goto L }\nJ:\n\tif p != nil { s += *p }\n\treturn s\n}\n\n", k2+5)
+	}
 }
 
 func (g *gen) fresh(prefix string) string {
